@@ -125,6 +125,7 @@ class Overlay:
         import fcntl
         self.tag = tag
         scratch = os.environ.get("VERIF_SCRATCH", "/tmp")
+        os.makedirs(scratch, exist_ok=True)
         self.root = os.path.join(scratch, "verif-ov-%s-s%d" % (tag, salt))
         self._lockf = open(self.root + ".lock", "w")
         try:
